@@ -494,7 +494,8 @@ async fn scripted(g: &Group, rng: &mut StdRng, sc: usize, script: &Value, panics
 	let mut abandon: BTreeMap<String, tokio::sync::oneshot::Sender<()>> = BTreeMap::new();
 	let mut faulted = false;
 	// how eagerly the client is allowed to run between two steps of this script
-	let pace = rng.random_range(0..3);
+	// (goal-directed scripts ask for the pace of their model: the environment acts when the client has come to rest)
+	let pace = script["pace"].as_u64().unwrap_or_else(|| rng.random_range(0..3));
 	for step in script["script"].as_array().unwrap() {
 		match step["op"].as_str().unwrap() {
 			"start" => {
